@@ -23,8 +23,13 @@ reg(
     "proof",
     ["contracts.moment_int:MomentIntermediate", "contracts.overlap:Cleanup", "contracts.overlap:ComposeMoment",
      "contracts.overlap:NormPrim", "contracts.overlap:OverlapBlock", "contracts.overlap:AssignNormCont",
-     "contracts.overlap:NormContInline"],
-    ["gbasis.integrals._moment_int._compute_multipole_moment_integrals_intermediate"],
+     "contracts.overlap:NormContInline", "contracts.overlap:OverlapInline", "contracts.assembly:TwoSymm", "contracts.assembly:TwoAsymm",
+     "contracts.dispatch:Dispatch", "contracts.dispatch:DispatchAsymm", "contracts.symmetry:BlockOrientation"],
+    ["gbasis.integrals._moment_int._compute_multipole_moment_integrals_intermediate", "gbasis.integrals._moment_int._cleanup_intermediate_integrals",
+     "gbasis.integrals._moment_int._compute_multipole_moment_integrals", "gbasis.contractions.GeneralizedContractionShell.norm_prim_cart",
+     "gbasis.contractions.GeneralizedContractionShell.assign_norm_cont", "gbasis.integrals.overlap.Overlap.construct_array_contraction",
+     "gbasis.integrals.overlap.overlap_integral", "gbasis.integrals.overlap_asymm.overlap_integral_asymmetric",
+     "gbasis.base_two_symm.BaseTwoIndexSymmetric.construct_array_*", "gbasis.base_two_asymm.BaseTwoIndexAsymmetric.construct_array_*"],
 )
 
 ASM = ["contracts.assembly:OneIndex", "contracts.assembly:TwoSymm", "contracts.assembly:TwoAsymm", "contracts.assembly:FourSymm"]
@@ -37,14 +42,19 @@ DISP = ["contracts.dispatch:Dispatch", "contracts.dispatch:DispatchAsymm"]
 CHECKS["C09"].harnesses += DISP
 
 reg("C02", "proof", ["contracts.moment_int:MomentIntermediate", "contracts.overlap:Cleanup", "contracts.diffop:DiffIntermediate",
-    "contracts.diffop:ComposeDiff", "contracts.diffop:KineticBlock"],
+    "contracts.diffop:ComposeDiff", "contracts.diffop:KineticBlock", "contracts.symmetry:BlockOrientation", "contracts.assembly:TwoSymm",
+    "contracts.dispatch:Dispatch", "contracts.overlap:NormPrim", "contracts.overlap:AssignNormCont"],
     ["gbasis.integrals._diff_operator_int._compute_differential_operator_integrals_intermediate",
      "gbasis.integrals._diff_operator_int._compute_differential_operator_integrals",
      "gbasis.integrals.kinetic_energy.KineticEnergyIntegral.construct_array_contraction"])
 reg("C07", "proof", ["contracts.moment_int:MomentIntermediate", "contracts.overlap:Cleanup", "contracts.overlap:ComposeMoment",
-    "contracts.diffop:MomentBlock"], ["gbasis.integrals.moment.Moment.construct_array_contraction"])
+    "contracts.diffop:MomentBlock", "contracts.diffop:MomentLemmas", "contracts.symmetry:BlockOrientation", "contracts.assembly:TwoSymm",
+    "contracts.dispatch:Dispatch"], ["gbasis.integrals._moment_int.* (as C01)", "gbasis.integrals.moment.Moment.construct_array_contraction",
+    "gbasis.integrals.moment.moment_integral", "gbasis.base_two_symm.BaseTwoIndexSymmetric.construct_array_* (trailing axis)"])
 reg("C08", "proof", ["contracts.diffop:DiffIntermediate", "contracts.diffop:MomentumBlock", "contracts.diffop:AngMomBlock",
-    "contracts.assembly:TwoSymmHerm"], ["gbasis.integrals.momentum.MomentumIntegral.construct_array_contraction",
+    "contracts.assembly:TwoSymmHerm", "contracts.symmetry:BlockOrientation", "contracts.symmetry:AssemblyPermutation", "contracts.dispatch:Dispatch",
+    "contracts.moment_int:MomentIntermediate"],
+    ["gbasis.integrals._diff_operator_int._compute_differential_operator_integrals_intermediate", "gbasis.integrals.momentum.MomentumIntegral.construct_array_contraction",
     "gbasis.integrals.angular_momentum.AngularMomentumIntegral.construct_array_contraction"])
 
 reg("C10", "proof", ["contracts.spherical:Harmonics", "contracts.spherical:Conventions"],
@@ -85,7 +95,7 @@ reg("C20", "proof", ["contracts.screening:IsScreened", "contracts.screening:Scre
     extra_assumptions=["precondition 0 < tol_screen < 1 (the property's range 1e-16 .. 0.5)",
                        "ln / exp enter z3 through sound axiom instances: strict monotonicity, sign of ln around 1, exp(ln x) = x"])
 
-reg("C03", "proof", ["contracts.coulomb:OneElecKernel", "contracts.coulomb:PointChargeBlock", "contracts.coulomb:PointChargeInline",
+reg("C03", "proof", ["contracts.coulomb:OneElecKernel", "contracts.coulomb:PointChargeBlock", "contracts.coulomb:PointChargeInline", "contracts.coulomb:BoysFunction",
     "contracts.dispatch:Dispatch", "contracts.assembly:TwoSymm"],
     ["gbasis.integrals._one_elec_int._compute_one_elec_integrals", "gbasis.integrals.point_charge.PointChargeIntegral.construct_array_contraction",
      "gbasis.integrals.point_charge.point_charge_integral", "gbasis.integrals.nuclear_electron_attraction.nuclear_electron_attraction_integral"],
@@ -93,7 +103,7 @@ reg("C03", "proof", ["contracts.coulomb:OneElecKernel", "contracts.coulomb:Point
                        "satisfying boys(m, T) = F_m(T); the real hyp1f1-based implementation is covered by the bounded stand-in only",
                        "trusted calculus: (s|1/r_C|s) = (2 pi/p) E F_0(p|PC|^2), dF_m/dT = -F_{m+1}, differentiation under the integral sign"])
 
-reg("C04", "proof", ["contracts.coulomb:TwoElecKernel", "contracts.coulomb:ERIBlock", "contracts.coulomb:ERISymmetry",
+reg("C04", "proof", ["contracts.coulomb:TwoElecKernel", "contracts.coulomb:ERIBlock", "contracts.coulomb:ERISymmetry", "contracts.coulomb:BoysFunction",
     "contracts.dispatch:Dispatch", "contracts.assembly:FourSymm"],
     ["gbasis.integrals._two_elec_int._compute_two_elec_integrals", "gbasis.integrals._two_elec_int._compute_two_elec_integrals_angmom_zero",
      "gbasis.integrals.electron_repulsion.ElectronRepulsionIntegral.construct_array_contraction",
